@@ -464,10 +464,10 @@ fn emit_coverage(out: &mut Out, runner: &Runner, rng: &mut Rng) {
 
 fn opts(rng: &mut Rng) -> GenOpts {
 	GenOpts {
-		names: ["roads", "water", "pois", "Straße"].iter().map(|s| s.as_bytes().to_vec()).collect(),
+		names: ["roads", "water", "pois", "Straße", "Roads", "ROADS", "roads ", " roads", "roads2", "road", "ro\u{430}ds", "", "STRASSE", "caf\u{e9}", "cafe\u{301}"].iter().map(|s| s.as_bytes().to_vec()).collect(),
 		keys: ["id", "name", "kind", "pop", "höhe"].iter().map(|s| s.as_bytes().to_vec()).collect(),
 		id_values: vec![IValue::UInt(1), IValue::Str(b"a1".to_vec()), IValue::SInt(-3), IValue::Int(-3)],
-		max_layers: 3,
+		max_layers: 4,
 		max_features: 4,
 		messy_tables: rng.chance(2, 3),
 		nan: rng.chance(1, 10),
